@@ -74,47 +74,51 @@ def _late(reg, prog):
     register_unprotect(reg, prog)
 
 
-def register_unprotect(reg, prog):
-    """call-order (typestate) contract of CanUnprotect.unprotect: cryptography, CBOR and key handling are environment"""
-    from contracts.util import lg, lg_result, evs, B, Ev
-    P = ['C12']
+def declare_oscore(reg):
+    """class declarations shared by the OSCORE contracts (C11, C12)"""
+    if 'SecCtx' in reg.classes:
+        return
     CU = 'aiocoap.oscore:CanUnprotect'
-    MSG = Ref('Message')
     reg.declare_class('SecCtx', CU, fields={
         'id_context': Opt(BYTES), 'recipient_id': BYTES, 'recipient_replay_window': Ref('ReplayWindow'), 'echo_recovery': Opt(BYTES),
         'alg_aead': Ref('AlgI'), 'alg_group_enc': Ref('AlgI'), 'alg_signature': Ref('SigAlgI'), 'signature_encryption_key': BYTES,
         'recipient_public_key': ANY, 'recipient_key': BYTES})
+    # alg_signature / alg_group_enc are only annotated on the group-context base classes: plain (non-group) contexts
+    # do not have them at all
+    reg.classes['SecCtx'].maybe_absent = {'alg_signature'}
+    reg.assume('A-ATTR: instance attributes that only group contexts define (alg_signature) may be missing on the context under '
+               'verification: reading them raises AttributeError there')
     reg.declare_class('AlgI', 'aiocoap.oscore:SymmetricEncryptionAlgorithm', opaque=True, fields={'tag_bytes': INT, 'iv_bytes': INT})
     reg.declare_class('SigAlgI', 'aiocoap.oscore:AlgorithmCountersign', opaque=True, fields={'signature_length': INT})
     reg.declare_class('RequestIdentifiersI', 'aiocoap.oscore:RequestIdentifiers', opaque=True, fields={'partial_iv': BYTES, 'kid': BYTES})
-    reg.assume('A-AEAD (ideal): decrypt either returns the plaintext (at least one byte when the ciphertext is longer than the tag) '
+
+
+def register_unprotect(reg, prog):
+    """call-order (typestate) contract of CanUnprotect.unprotect: cryptography, CBOR and key handling are environment"""
+    from contracts.util import lg, lg_result, evs, B, Ev
+    P = ['C12', 'C11']
+    CU = 'aiocoap.oscore:CanUnprotect'
+    MSG = Ref('Message')
+    declare_oscore(reg)
+    reg.assume('A-AEAD (ideal): decrypt either returns the plaintext (never empty: a key holder only encrypts what protect() builds, code byte first) '
                'or raises; nothing is assumed about WHEN it fails -- the typestate clauses hold for every outcome')
     reg.declare_class('ReplayErrorWithEcho', 'aiocoap.oscore:ReplayErrorWithEcho', fields={'secctx': Ref('SecCtx'), 'request_id': Opt(Ref('RequestIdentifiersI')), 'echo': Opt(BYTES)})
     UNP = Dict(INT, BYTES, 'oscore.unprotected')
 
-    def extract(ex, st, args, kw, node):
-        st.log.append(('extract',))
-        unp = ex.new_dict(st, INT, BYTES, 'oscore.unprotected')
-        kd, dd = ex._dd(st, unp)
-        ex.heap_set(st, kd, z3.Store(dd, unp.t, z3.Const(fresh_name('unprot_dom'), z3.ArraySort(I, Bo))))
-        prot = ex.new_dict(st, INT, BYTES, 'oscore.protected')
-        kd2, dd2 = ex._dd(st, prot)
-        ex.heap_set(st, kd2, z3.Store(dd2, prot.t, z3.Const(fresh_name('prot_dom'), z3.ArraySort(I, Bo))))
-        s2 = st.copy()
-        ex.raise_exc(s2, 'aiocoap.oscore:DecodeError')
-        return [(st, VTuple([ex.fresh_val(st, BYTES, 'prot_ser'), prot, unp, ex.fresh_val(st, BYTES, 'ciphertext')])), (s2, None)]
-    reg.externals['repo:' + CU + '._extract_encrypted0'] = extract
-    reg.externals['repo:' + CU + '._extract_external_aad'] = lambda ex, st, args, kw, node: [(st, ex.fresh_val(st, BYTES, 'aad'))]
-    reg.externals['repo:aiocoap.oscore:BaseSecurityContext._extract_external_aad'] = reg.externals['repo:' + CU + '._extract_external_aad']
-    reg.externals['repo:aiocoap.oscore:BaseSecurityContext._construct_nonce'] = lambda ex, st, args, kw, node: [(st, ex.fresh_val(st, BYTES, 'nonce'))]
-    reg.externals['repo:aiocoap.oscore:BaseSecurityContext._kdf_for_keystreams'] = lambda ex, st, args, kw, node: [(st, ex.fresh_val(st, BYTES, 'keystream'))]
+    def keystream(ex, st, args, kw, node):
+        """HKDF output for the signature keystream: as many bytes as the countersignature has (assumed: the real function
+        asks HKDF for alg_signature.signature_length bytes)"""
+        k = ex.fresh_val(st, BYTES, 'keystream')
+        sig = ex.read_field(st, args[0], 'alg_signature', Ref('SigAlgI'))
+        st.assume(k.len == ex.read_field(st, sig, 'signature_length', INT).t)
+        return [(st, k)]
+    reg.externals['repo:aiocoap.oscore:BaseSecurityContext._kdf_for_keystreams'] = keystream
     reg.externals['attr:SecCtx._kdf_for_keystreams'] = lambda ex, st, base, node: [(st, VFunc('ext', name='SecCtx._kdf_for_keystreams', bound=base))]
-    reg.externals['SecCtx._kdf_for_keystreams'] = lambda ex, st, args, kw, node: [(st, ex.fresh_val(st, BYTES, 'keystream'))]
-    reg.externals['repo:aiocoap.oscore:_xor_bytes'] = lambda ex, st, args, kw, node: [(st, ex.fresh_val(st, BYTES, 'xored'))]
+    reg.externals['SecCtx._kdf_for_keystreams'] = keystream
     reg.externals['repo:' + CU + '._get_recipient_key'] = lambda ex, st, args, kw, node: [(st, ex.fresh_val(st, BYTES, 'key'))]
-    reg.externals['cbor2.dumps'] = lambda ex, st, args, kw, node: [(st, ex.fresh_val(st, BYTES, 'cbor'))]
-    reg.externals['cbor.dumps'] = reg.externals['cbor2.dumps']
-    reg.externals['new:aiocoap.oscore:RequestIdentifiers'] = lambda ex, st, args, kw, node: [(st, ex.new_object(st, 'RequestIdentifiersI'))]
+    reg.externals.setdefault('cbor2.dumps', lambda ex, st, args, kw, node: [(st, ex.fresh_val(st, BYTES, 'cbor'))])
+    reg.externals.setdefault('cbor.dumps', reg.externals['cbor2.dumps'])
+    reg.externals.setdefault('new:aiocoap.oscore:RequestIdentifiers', lambda ex, st, args, kw, node: [(st, ex.new_object(st, 'RequestIdentifiersI'))])
 
     def post_checks(ex, st, args, kw, node):
         st.log.append(('post_decrypt_checks',))
@@ -133,6 +137,7 @@ def register_unprotect(reg, prog):
         p = ex.fresh_val(st, BYTES, 'plaintext')
         tag = ex.read_field(st, alg, 'tag_bytes', INT).t
         st.assume(p.len == ciphertext.len - tag)
+        st.assume(p.len >= 1)      # ideal AEAD: only what a key holder encrypted decrypts, and protect() always encrypts code + options (C11 _split_message)
         return [(st, p), (s2, None)]
     reg.externals['AlgI.decrypt'] = decrypt
 
@@ -181,6 +186,18 @@ def register_unprotect(reg, prog):
         accepted_by_window = B('rw_strike_out' in kinds)
         accepted_by_echo = B('rw_init_fresh' in kinds)
         g.append(('an-accepted-request-is-recorded-in-the-window', z3.Implies(is_req, z3.Or(accepted_by_window, accepted_by_echo))))
+        # C11: whatever the OSCORE option says about key ID and ID context has been compared with this context
+        for e in s.log:
+            if e[0] == 'extract':
+                dom, vals = e[3], e[4]
+                ctx_in_option = from_term(BYTES, z3.Select(vals, z3.IntVal(10)))
+                kid_in_option = from_term(BYTES, z3.Select(vals, z3.IntVal(4)))
+                g.append(('a-kid-context-in-the-option-is-the-id-context-of-this-security-context',
+                          z3.Implies(z3.Select(dom, z3.IntVal(10)), ev('old(self.id_context) is not None and c == old(self.id_context)', c=ctx_in_option))))
+                g.append(('a-kid-in-the-option-is-the-recipient-id-of-this-security-context',
+                          z3.Implies(z3.Select(dom, z3.IntVal(4)), ev('k == old(self.recipient_id)', k=kid_in_option))))
+                g.append(('a-request-carries-a-partial-iv', z3.Implies(is_req, z3.Select(dom, z3.IntVal(6)))))
+        g.append(('option-was-extracted', B('extract' in kinds)))
         for e in s.log:
             if e[0] == 'rw_init_fresh':
                 g.append(('echo-recovery-only-while-uninitialised-and-with-the-issued-value',
@@ -192,7 +209,7 @@ def register_unprotect(reg, prog):
     def unp_raise(ctx):
         return z3.And(B(True), *[g for _, g in order_ok(ctx.st)])
 
-    RAISES = ['ProtectionInvalid', 'DecodeError', 'ReplayError', 'ReplayErrorWithEcho', 'NotAProtectedMessage', 'UnparsableMessage', 'AssertionError', 'ValueError', 'Exception']
+    RAISES = ['ProtectionInvalid', 'DecodeError', 'ReplayError', 'ReplayErrorWithEcho', 'NotAProtectedMessage', 'UnparsableMessage']
     reg.contract(CU + '.unprotect', self_class='SecCtx', params={'protected_message': MSG, 'request_id': Opt(Ref('RequestIdentifiersI'))},
                  result=Tuple(MSG, Opt(Ref('RequestIdentifiersI'))), properties=P,
                  requires=['protected_message.code is not None', '0 <= protected_message.code <= 255',
@@ -200,6 +217,16 @@ def register_unprotect(reg, prog):
                            # drop every other code class before a security context sees it
                            '1 <= protected_message.code < 32 or 64 <= protected_message.code < 192',
                            'implies(self.recipient_replay_window._index is not None, window_wf(self.recipient_replay_window))',
-                           'self.alg_aead.tag_bytes >= 0', 'self.alg_group_enc.tag_bytes >= 0', 'self.recipient_replay_window._size > 0'],
-                 raises={k: MAY for k in RAISES}, modifies=['*'], at_exit=unp_exit,
+                           'self.alg_aead.tag_bytes >= 0', 'self.alg_group_enc.tag_bytes >= 0', 'self.recipient_replay_window._size > 0',
+                           # caller obligations asserted at the top of the function
+                           '(request_id is not None) == (64 <= protected_message.code < 192)', 'protected_message.direction is Direction.INCOMING',
+                           # the OSCORE site wrapper answers 4.05 to protected requests whose outer code is not POST / FETCH
+                           'implies(protected_message.code < 32, protected_message.code == 2 or protected_message.code == 5)',
+                           # context well-formedness: IDs fit the nonce of the algorithms, the Common IV has the nonce length
+                           'len(self.recipient_id) <= self.alg_aead.iv_bytes - 6', 'len(self.recipient_id) <= self.alg_group_enc.iv_bytes - 6',
+                           'len(self.recipient_id) <= 255', 'len(self.common_iv) >= self.alg_aead.iv_bytes',
+                           'len(self.common_iv) >= self.alg_group_enc.iv_bytes', 'self.alg_signature.signature_length > 0',
+                           'implies(request_id is not None, request_id.request_hash is None and len(request_id.kid) <= 255 and len(request_id.kid) <= self.alg_aead.iv_bytes - 6 '
+                           'and len(request_id.kid) <= self.alg_group_enc.iv_bytes - 6 and len(request_id.partial_iv) <= 5)'],
+                 raises={k: MAY for k in RAISES}, only_raises=True, modifies=['*'], at_exit=unp_exit,
                  raises_post={k: {'window-untouched-unless-decryption-succeeded': unp_raise} for k in RAISES})
